@@ -283,6 +283,8 @@ func (session *ServerCommandSession) handleAnnounce(requestCtx nazahttp.HttpReqM
 	session.pubSession.InitWithSdp(sdpCtx)
 
 	if err = session.observer.OnNewRtspPubSession(session.pubSession); err != nil {
+		// 上层拒绝了这个推流请求，该PubSession没有被上层持有，连接关闭时不应该再回调 OnDelRtspPubSession
+		session.pubSession = nil
 		return err
 	}
 
@@ -324,6 +326,8 @@ func (session *ServerCommandSession) handleDescribe(requestCtx nazahttp.HttpReqM
 	ok, rawSdp := session.observer.OnNewRtspSubSessionDescribe(session.subSession)
 	if !ok {
 		Log.Warnf("[%s] force close subSession.", session.uniqueKey)
+		// 上层拒绝了这个拉流请求，该SubSession没有被上层持有，连接关闭时不应该再回调 OnDelRtspSubSession
+		session.subSession = nil
 		return base.ErrRtspClosedByObserver
 	}
 
